@@ -26,6 +26,9 @@ pub enum Change {
     EtherType(u16),
     /// IP protocol / next header outside the supported set
     Proto(u8),
+    /// the same frame behind VLAN tags: its EtherType is then 0x8100 / 0x88a8 / ..., not one of
+    /// the three supported ones (also with VLAN id 0, the "priority tag")
+    Vlan(Vec<(u16, u16)>),
 }
 
 #[derive(Clone, Debug, Serialize, Deserialize, PartialEq)]
@@ -68,6 +71,7 @@ fn change() -> impl Strategy<Value = Change> {
         3 => vec(any::<[u8; 4]>().prop_map(|a| IpAddr::V4(Ipv4Addr::from(a))), 0..3).prop_map(|extra| Change::Denied { extra }),
         2 => any::<u16>().prop_map(Change::EtherType),
         2 => any::<u8>().prop_map(Change::Proto),
+        2 => crate::vf::traffic::vlan_tags().prop_map(Change::Vlan),
     ]
 }
 
@@ -190,6 +194,13 @@ pub fn apply_change(cfg: &Cfg, g: &[u8], ch: &Change) -> Option<(Cfg, Vec<u8>, &
             b[12] = (*e >> 8) as u8;
             b[13] = *e as u8;
             Some((cfg2, b, "ethertype"))
+        }
+        Change::Vlan(tags) => {
+            let e = tags.first().map(|t| t.0).unwrap_or(0x8100);
+            if e == ET_ARP || e == ET_V4 || e == ET_V6 {
+                return None;
+            }
+            Some((cfg2, vlan_tagged(g, tags), "vlan-tagged"))
         }
         Change::Proto(p) => {
             match be16(g, 12) {
@@ -471,7 +482,7 @@ impl Prop for C02 {
         "C02"
     }
     fn rule(&self) -> &'static str {
-        "twin construction: an in-scope answerable frame g (all request kinds, both IP versions, generated configurations) and a twin b obtained by exactly one out-of-scope change — destination MAC outside Auth(MAC,S) (one bit off the own MAC, multicast MAC of a foreign address, RFC 1112 mapping from the wrong bits, 33:33:00:00:00:02, ff:ff:ff:ff:ff:fe, random), requester on the deny list (IPv4 and IPv6, incl. the ICMPv6 path), EtherType outside {ARP,IPv4,IPv6}, IP protocol / next header outside the supported set; plus exhaustive sweeps of all 256 protocol numbers per IP version and of EtherTypes (quick: 2048 sampled incl. neighbours of the supported ones; thorough: all 65536) over three answered base frames; plus the positive clause: a self-IP list S is configured and requests are addressed (IP destination / ARP target / NS target) to members of S, one-bit neighbours, random and multicast addresses: every reply's source address, ARP sender address and NA target must be in S. Non-trivial = the in-scope twin was answered (twins) / a reply was produced (membership); distinct by hash of the out-of-scope frame + change kind."
+        "twin construction: an in-scope answerable frame g (all request kinds, both IP versions, generated configurations) and a twin b obtained by exactly one out-of-scope change — destination MAC outside Auth(MAC,S) (one bit off the own MAC, multicast MAC of a foreign address, RFC 1112 mapping from the wrong bits, 33:33:00:00:00:02, ff:ff:ff:ff:ff:fe, random), requester on the deny list (IPv4 and IPv6, incl. the ICMPv6 path), EtherType outside {ARP,IPv4,IPv6}, the same frame behind 1..3 VLAN tags (incl. VLAN id 0), IP protocol / next header outside the supported set; plus exhaustive sweeps of all 256 protocol numbers per IP version and of EtherTypes (quick: 2048 sampled incl. neighbours of the supported ones; thorough: all 65536) over three answered base frames; plus the positive clause: a self-IP list S is configured and requests are addressed (IP destination / ARP target / NS target) to members of S, one-bit neighbours, random and multicast addresses: every reply's source address, ARP sender address and NA target must be in S. Non-trivial = the in-scope twin was answered (twins) / a reply was produced (membership); distinct by hash of the out-of-scope frame + change kind."
     }
     fn run(&self, ctx: &mut RunCtx) {
         let n = ctx.share(ctx.tier.n(1_000_000, 12_000_000));
